@@ -1,6 +1,6 @@
 /-
   C01 — root file; the property theorems are in lean/EG/Props/C01/*.lean (DefaultEqNative, Scanline, Rectangle,
-  Circle/Ellipse via Scanline, RoundedRect, Image, Arc), each built as its own module by ./check C01.
+  Circle/Ellipse via Scanline, RoundedRect, Image, Arc, Line, Polyline, Triangle), each built as its own module by ./check C01.
 -/
 import EG.Basic.Core
 namespace EG.C01
